@@ -749,6 +749,8 @@ def check(run, db, tier):
                 raise
             run.info('fit_rules does not read this organisation of the fits (%s); piston / tilt / power removal were decided on values (%d cases)' % (str(e)[:140], n_fit))
     run.group(fit_reading, run, db)
+    run.forgive('crop_value_rules', ['crop_reading'])
+    run.forgive('removal_value_rules', ['fit_reading'])
     run.group(coord_pure_rules, run, db)
     run.require_instances('C12.cache', 36)
     run.require_instances('C12.stats', 12)
